@@ -1,6 +1,8 @@
 """C05 — SDK control flow and classical data flow compile to equivalent subroutines (L3 pipeline vs R-HOST)."""
 from __future__ import annotations
 
+import copy
+
 import itertools
 
 from vf.gen.host import HostGen
@@ -48,6 +50,18 @@ def cases(ctx):
             {"op": "add", "target": {"kind": "entry", "array": "a1", "idx": 0}, "other": 1, "mod": None}], "script": []}
         yield {"kind": "kf-reg-across-flush"}
         yield {"kind": "kf-remeasure"}
+        # every add form on both kinds of target with the operands 0 and 1, with and without a modulus that the value already
+        # exceeds (adding 0 modulo m still reduces), in one and in two flush segments
+        for kind in ("reg", "entry"):
+            for other in (0, 1, -1):
+                for mod in (None, 2, 3):
+                    for split in (False, True):
+                        tgt = {"kind": "reg", "name": "r1"} if kind == "reg" else {"kind": "entry", "array": "a1", "idx": 1}
+                        prog = [{"op": "array", "name": "a1", "init": [4, 7]}, {"op": "reg", "name": "r1", "init": 5}] + \
+                               ([{"op": "flush"}] if split else []) + \
+                               [{"op": "add", "target": tgt, "other": other, "mod": mod},
+                                {"op": "add", "target": {"kind": "entry", "array": "a1", "idx": 0}, "other": copy.deepcopy(tgt), "mod": None}]
+                        yield {"kind": "prog", "prog": prog, "script": []}
     for _ in range(ctx.n(900, 120000)):
         g = HostGen(rng, max_depth=rng.choice([2, 3, 4]))
         prog = g.program(rng.randrange(2, 9), p_flush=rng.choice([0.0, 0.2, 0.4, 0.7]))
